@@ -11,6 +11,7 @@ from .core import (Val, VNone, VTrue, VFalse, VInt, VStr, VBool, VRef, VFloat, I
                    LogEntry)
 from .interp_base import PyRaise
 from .interp_stmt import Seq
+from .contract import ANY as ANY_SORT, STR as P_STR
 
 NOOP_PREFIXES = ("logging.", "deep.logging.", "logging.config.")
 
@@ -110,12 +111,20 @@ class LibMixin:
         ci = self.table.info.get(cid)
         if ci is not None:
             return VBool(self.index.lookup_member(ci, "__call__") is not None)
+        if self.table.names.get(cid) in ("function", "type", "method"):
+            # host-owned functions/classes: callable; the spec-side predicate is the same uninterpreted one
+            self.ctx.assume(self.hostfn("callable", "raises")(v))
+            return VTrue
+        self.ctx.assume(z3.Not(self.hostfn("callable", "raises")(v)))
         return VFalse
 
     def b_hasattr(self, args, kwargs, node, anchor):
         v, nm = args
         name = z3.simplify(Val.s(nm))
         if not z3.is_string_value(name):
+            ob0 = self.pyobj(v)
+            if isinstance(ob0, ModuleObj):
+                return Val.VBool(z3.Function("ModHas_" + ob0.dotted.replace(".", "_"), S, B)(name))
             raise Unsupported("hasattr with symbolic name")
         attr = name.as_string()
         t = self.tag(v, "hasattr")
@@ -163,7 +172,17 @@ class LibMixin:
         default = args[2] if len(args) > 2 else None
         name = z3.simplify(Val.s(nm))
         if not z3.is_string_value(name):
-            tv = self.tag(v, "getattr-dyn")
+            ob0 = self.pyobj(v) if self.tag(v, "getattr-dyn") == "ref" else None
+            if isinstance(ob0, ModuleObj):
+                key = ob0.dotted.replace(".", "_")
+                has = z3.Function("ModHas_" + key, S, B)(name)
+                val = z3.Function("ModVal_" + key, S, Val)(name)
+                self.assume_shape(val, ANY_SORT)
+                if default is not None:
+                    return z3.If(has, val, default)
+                if not self.ctx.branch(has, "module-has-attr"):
+                    self.raise_("AttributeError", anchor)
+                return val
             dyn = self.contracts.get("extern:getattr-dynamic")
             if dyn is not None:
                 return dyn.model(self, args, kwargs, node, anchor)
@@ -664,6 +683,9 @@ class LibMixin:
             self.ctx.assume(z3.Implies(n == 1, z3.Select(arr, 0) == args[0]))
         self.st.lel = z3.Store(self.st.lel, r, arr)
         self.st.llen = z3.Store(self.st.llen, r, n)
+        jj = z3.Int("j!split")
+        self.ctx.assume(z3.ForAll([jj], Val.is_VStr(z3.Select(arr, jj))))       # every part is text
+        self.st.ghost.setdefault("elem_sorts", {})[str(VRef(rid))] = P_STR
         self.st.ghost.setdefault("str_lists", []).append(VRef(rid))
         self.st.ghost.setdefault("split_of", {})[rid] = (args[0], args[1] if len(args) > 1 else None)
         return VRef(rid)
@@ -736,6 +758,18 @@ class LibMixin:
     def b_Thread_ident(self, args, kwargs, node, anchor):
         raise Unsupported("Thread.ident call")
 
+    def b_Thread_start(self, args, kwargs, node, anchor):
+        self.st.log.append(LogEntry("Thread.start", list(args), kwargs, None, anchor))
+        return VNone
+
+    def b_Thread_join(self, args, kwargs, node, anchor):
+        self.st.log.append(LogEntry("Thread.join", list(args), kwargs, None, anchor))
+        return VNone
+
+    def b_Event_set(self, args, kwargs, node, anchor):
+        self.st.log.append(LogEntry("Event.set", list(args), kwargs, None, anchor))
+        return VNone
+
     def b_Lock___enter__(self, args, kwargs, node, anchor):
         return VNone
 
@@ -746,10 +780,14 @@ class LibMixin:
         return VNone
 
     def b_object___getattribute__(self, args, kwargs, node, anchor):
-        ext = self.contracts.get("extern:object.__getattribute__")
-        if ext is not None:
-            return ext.model(self, args, kwargs, node, anchor)
-        raise Unsupported("object.__getattribute__")
+        """Default attribute lookup with a computed name: the object's own attributes are an abstract partial map
+        (OwnHas / OwnVal); a missing name raises AttributeError."""
+        obj, nm = args[0], args[1]
+        has = z3.Function("OwnHas", Val, S, B)(obj, Val.s(nm))
+        val = z3.Function("OwnVal", Val, S, Val)(obj, Val.s(nm))
+        if not self.ctx.branch(has, "own-attribute-exists"):
+            self.raise_("AttributeError", anchor)
+        return val
 
     def b_object___setattr__(self, args, kwargs, node, anchor):
         obj, nm, v = args
